@@ -45,11 +45,11 @@ type params struct {
 func gen06(seed int64, tier string) []drv.Case {
 	r := gen.Rand(seed, "c06")
 	var cs []drv.Case
-	n := 14
+	n := 16
 	if tier == "thorough" {
-		n = 220
+		n = 240
 	}
-	ops := []string{"upload", "upload", "upload-keys", "commit", "label-new", "label-overwrite", "upload"}
+	ops := []string{"upload", "upload", "upload-keys", "commit", "label-new", "label-overwrite", "upload", "mount-commit"}
 	for i := 0; i < n; i++ {
 		op := ops[i%len(ops)]
 		leaf := uint32([]int{4096, 2 << 20}[r.Intn(2)])
@@ -61,7 +61,7 @@ func gen06(seed int64, tier string) []drv.Case {
 			p.Labels = append(p.Labels, fmt.Sprintf("label%d", j))
 		}
 		nf := 1 + r.Intn(4)
-		big := op == "upload" && ((tier == "thorough" && i%20 == 0) || (tier != "thorough" && i == 0))
+		big := (op == "upload" && ((tier == "thorough" && i%20 == 0) || (tier != "thorough" && i == 0))) || (op == "mount-commit" && tier == "thorough" && i%40 == 7)
 		if big {
 			nf, p.Sampled = 1001+r.Intn(150), true
 			p.Tree = coreh.GenTree(r, r.Int63(), nf, coreh.TreeOpt{Tiny: true})
@@ -111,6 +111,14 @@ func runOp(p params, w *world, env *coreh.Env, a *memstore.Actor) (string, error
 			return d.BundleID, err
 		}
 		return "", err
+	case "mount-commit":
+		// the commit of a mutable mount: files staged locally, then blobs, file lists and descriptor (UploadBundleEntries)
+		stag, err := os.MkdirTemp(os.Getenv("VERIF_SCRATCH"), "c06-mntop-")
+		if err != nil {
+			panic(err)
+		}
+		defer os.RemoveAll(stag)
+		return fuseh.CommitTreeAs(env, a, stag, "r", w.opTree, p.Leaf)
 	case "label-new":
 		ids := committed(env)
 		return "", env.SetLabel(a, "r", "fresh-label", ids[len(ids)-1])
@@ -396,7 +404,17 @@ func run06(c drv.Case, res *drv.Result) {
 				res.Violate("committed-bundle-not-downloadable", cls+"|"+stage+"|"+where, "%s, crash %s: visible bundle %s does not download: %v", stage, where, id, err)
 				return false
 			}
-			if d := coreh.DiffTrees(coreh.WithoutMeta(coreh.StoreTree(dest)), want); d != "" {
+			gotTree := coreh.WithoutMeta(coreh.StoreTree(dest))
+			if p.Op == "mount-commit" && !known {
+				// a mutable mount records its entries with a leading "/" (a directory destination drops it, the
+				// reference store keeps it): compared without it, as C18 does
+				nt := coreh.Tree{}
+				for k, v := range gotTree {
+					nt[strings.TrimPrefix(k, "/")] = v
+				}
+				gotTree = nt
+			}
+			if d := coreh.DiffTrees(gotTree, want); d != "" {
 				res.Violate("committed-bundle-content", stage+"|"+where, "%s, crash %s: visible bundle %s differs from its recorded tree: %s", stage, where, id, d)
 				return false
 			}
@@ -472,7 +490,7 @@ func run06(c drv.Case, res *drv.Result) {
 	// its error path. Whatever it returns, a fresh client must only see complete bundles; when it returns nil its
 	// bundle must be visible.
 	faultEvals := 0
-	if p.Op == "upload" || p.Op == "upload-keys" {
+	if p.Op == "upload" || p.Op == "upload-keys" || (p.Op == "mount-commit" && !p.Sampled) {
 		runFaulted := func(label string, prepare func(a *memstore.Actor) func()) bool {
 			env := base.Clone()
 			a := memstore.NewActor("faulted")
@@ -501,7 +519,7 @@ func run06(c drv.Case, res *drv.Result) {
 				res.Stat("operations_succeeding_despite_fault", 1)
 			}
 			if err == nil && (len(after) != len(before)+1 || !contains(after, id)) {
-				res.Violate("successful-upload-not-visible", label, "fault %s: Upload returned nil but its bundle %s is not among the committed bundles %v", label, id, after)
+				res.Violate("successful-upload-not-visible", label, "fault %s: %s returned nil but its bundle %s is not among the committed bundles %v", label, p.Op, id, after)
 				return false
 			}
 			if err != nil && len(after) != len(before) {
